@@ -16,10 +16,10 @@ def cfgAllow (cfg : List String) : Bool := cfg.contains "mode=allow"
 def parseCOp (toks : List String) : Option COp := do
   let order ← IO.oracle "order" toks
   let aborts ← IO.oracle "aborts" toks
-  match toks.filter (fun t => !(t.startsWith "order=" || t.startsWith "aborts=")) with
+  match toks.filter (fun t => !(t.startsWith "order=" || t.startsWith "aborts=" || t.startsWith "ov=")) with
   | ["deny", p] => pure (COp.deny (← p.toNat?) order aborts)
   | ["permit", p] => pure (COp.permit (← p.toNat?))
-  | _ => (IO.parseOp toks).map COp.sw
+  | _ => (IO.parseOp (toks.filter (fun t => !t.startsWith "ov="))).map COp.sw
 
 def sortNat (l : List Nat) : List Nat := l.foldl (fun acc x => insertSorted x acc) []
 
